@@ -1,6 +1,7 @@
 import JSight.TreeEvents
 import JSight.TreeSpans
 import JSight.TreeNested
+import JSight.TreeRebuild
 /-!
 # C06 — Lexical events faithfully describe the scanned text
 
@@ -40,6 +41,14 @@ theorem C06_nested (allow : Bool) (v : JA) (hv : v.Valid) (ws0 ws1 : List Cls) (
     (bs : List UInt8) (hbs : bs.map classify = ws0 ++ (v.render ++ ws1)) :
     ∃ evs, events allow bs = .ok evs ∧ wn evs [] = true :=
   ⟨_, C06_events_of_tree allow v hv ws0 ws1 h0 h1 bs hbs, evsAt_wellNested _ v⟩
+
+/-- the JSON value (the tree without layout) can be rebuilt from the delivered events and the token slices
+their spans cut out of the input, without looking at the input for structure -/
+theorem C06_rebuild (allow : Bool) (v : JA) (hv : v.Valid) (ws0 ws1 : List Cls) (h0 : IsWs ws0) (h1 : IsWs ws1)
+    (bs : List UInt8) (hbs : bs.map classify = ws0 ++ (v.render ++ ws1)) :
+    ∃ evs f, events allow bs = .ok evs ∧ rebV (bs.map classify) f evs = some (strip v, []) := by
+  obtain ⟨f, hf⟩ := rebuild_tree v hv ws0 ws1
+  exact ⟨_, f, C06_events_of_tree allow v hv ws0 ws1 h0 h1 bs hbs, by rw [hbs]; exact hf⟩
 
 /-- RFC 8259 scalar tokens are what the tree's leaves may be: strings, numbers, the three words -/
 theorem C06_string_token (b : List Cls) (hb : StrBody b) : IsScalar (.quote :: (b ++ [.quote])) := string_isScalar b hb
